@@ -238,7 +238,7 @@ def run(ctx):
             lr = random.Random(ctx.seed * 1000003 + bi * 2 + rep)
             sk = lr.sample(U.STR_KEYS, 2)
             conc = U.Concretizer(lr, {'title': sk[0], 'program': sk[1], 'depth': lr.choice(['depth', 'error']) if 'error' not in wkeys else 'depth'})
-            text = conc.text(lines, leading_commas=(rep == 1 and lr.random() < 0.5))
+            text = conc.text(lines)
             exp = expected_records(conc, res['recs']) if res['ok'] else None
             batch.add(text, src='walk', lines=lines, exp=exp, id=bi)
     ctx.log('walk vectors:', nwalk)
@@ -246,7 +246,7 @@ def run(ctx):
     if ctx.thorough():
         consts = ' MaxRecs = 2\n SKeySets = {{}, {"title"}, {"title", "program"}}\n IssueCounts = {0, 2}\n CounterKinds = {"none", "braced3"}\n NumKinds = {"none", "zero", "val"}\n'
     else:
-        consts = ' MaxRecs = 2\n SKeySets = {{}, {"title", "version"}}\n IssueCounts = {0, 2}\n CounterKinds = {"none", "braced3"}\n NumKinds = {"none", "zero"}\n'
+        consts = ' MaxRecs = 2\n SKeySets = {{}, {"title", "version"}}\n IssueCounts = {0, 2}\n CounterKinds = {"none", "braced3"}\n NumKinds = {"none"}\n'
     r = ctx.tlc('ChartConfigRender', cfg_text='SPECIFICATION Spec\nINVARIANT RoundTrip\nCHECK_DEADLOCK FALSE\nCONSTANTS\n' + consts, dump=True,
                 label='ChartConfigRender-2', timeout=1500)
     if not r.ok:
@@ -267,7 +267,7 @@ def run(ctx):
             nrender += 1
             lr = random.Random(ctx.seed * 999983 + nrender)
             conc = U.Concretizer(lr, {'depth': lr.choice(['depth', 'depth', 'error'])})
-            text = conc.text(v['lines'], leading_commas=lr.random() < 0.3)
+            text = conc.text(v['lines'])
             batch.add(text, src='render', lines=v['lines'], exp=expected_records(conc, v['want']), id=nrender)
     ctx.log('render vectors:', nrender)
     res, summ = run_parse(ctx, batch)
@@ -344,16 +344,28 @@ def run(ctx):
             elif what == 'counterb':
                 lines.append(U.L('field', 'counter', 't%d' % nv, ['b%d.%d' % (nv, j) for j in range(lr.randint(1, 4))]))
             elif what == 'multi':
-                lines.append(U.L('copen', 'counter', 't%d' % nv, ['b%d.0' % nv] if lr.random() < 0.5 else []))
-                for j in range(lr.randint(0, 3)):
+                style = lr.choice(['trail', 'trail', 'lead', 'own-line', 'random'])
+                first = lr.random() < 0.5 and style != 'own-line'
+                nmid = lr.randint(0 if first else 1, 3)
+                flag = lambda: lr.random() < 0.5
+                lines.append(U.L('copen', 'counter', 't%d' % nv, ['b%d.0' % nv] if first else [],
+                                 False, first and (style == 'trail' or (style == 'random' and flag()))))
+                for j in range(nmid):
                     if lr.random() < 0.2:
                         lines.append(U.L('blank'))
-                    lines.append(U.L('cmid', '', '', ['b%d.%d.%d' % (nv, j, q) for q in range(lr.randint(1, 2))]))
+                    have = first or j > 0
+                    last = j == nmid - 1
+                    lines.append(U.L('cmid', '', '', ['b%d.%d.%d' % (nv, j, q) for q in range(lr.randint(1, 2))],
+                                     flag() if style == 'random' else (style == 'lead' and have),
+                                     flag() if style == 'random' else (style == 'trail' or (style == 'own-line' and not last))))
                 if lr.random() < 0.9:
-                    lines.append(U.L('cclose', '', '', ['b%d.z' % nv]))
+                    if style == 'own-line':
+                        lines.append(U.L('cclose'))
+                    else:
+                        lines.append(U.L('cclose', '', '', ['b%d.z' % nv], flag() if style == 'random' else style == 'lead', False))
             else:
                 lines.append(U.L(what))
-        text = conc.text(lines, leading_commas=False)
+        text = conc.text(lines)
         if lr.random() < 0.1:
             text = text.replace('\n', '\r\n')
         if lr.random() < 0.05:
@@ -389,18 +401,31 @@ def run(ctx):
     top = min(len(U.GO_POOL), len(U.SEMVER_POOL))
     mins = sorted(rng.sample(range(1, top + 1), ctx.pick(3, 4)))
     ctr_names = {1: 'gopls/editor:{emacs,vim,vscode,other}', 2: 'gopls/bug'}
-    cfg = ('SPECIFICATION Spec\nINVARIANTS OrderIndependent EachListedOnce PrefixMonotone OwnMinListed\nCHECK_DEADLOCK FALSE\nCONSTANTS\n'
-           ' MaxRecs = 3\n Ctrs = {1, 2}\n Depths = {0, %d}\n Mins = {0, %s}\n Known1 = {%s}\n Known2 = {%s}\n' % (
-               rng.choice([1, 5, 16]), ', '.join(map(str, mins)), ', '.join(map(str, go_known)), ', '.join(map(str, mod_known))))
-    r = ctx.tlc('ChartConfigGen', cfg_text=cfg, dump=True, label='ChartConfigGen', timeout=2400)
-    if not r.ok:
-        raise Infra('ChartConfigGen: a sanity theorem fails: %s %s\n%s' % (r.error, r.error_name, r.out[-3000:]))
+    depth = rng.choice([1, 5, 16])
+    gen_cfgs = []
+    if ctx.thorough():
+        gen_cfgs.append((3, '{1, 2}', mins))
+    else:
+        gen_cfgs.append((2, '{1, 2}', mins))
+        gen_cfgs.append((3, '{1}', mins[:1] + mins[-1:]))
     cases, exps = [], []
-    for st in tlaval.read_dump(r.dump):
-        recs = [(x['prog'], x['ctr'], x['depth'], x['min']) for x in st['recs']]
-        cr = random.Random(ctx.seed * 31 + len(cases))
-        cases.append(gen_case(len(cases), recs, cr, go_known, mod_known, ctr_names))
-        exps.append((recs, st))
+    for (mr, ctrs, ms) in gen_cfgs:
+        cfg = ('SPECIFICATION Spec\nINVARIANTS OrderIndependent EachListedOnce PrefixMonotone OwnMinListed\nCHECK_DEADLOCK FALSE\nCONSTANTS\n'
+               ' MaxRecs = %d\n Ctrs = %s\n Depths = {0, %d}\n Mins = {0, %s}\n Known1 = {%s}\n Known2 = {%s}\n' % (
+                   mr, ctrs, depth, ', '.join(map(str, ms)), ', '.join(map(str, go_known)), ', '.join(map(str, mod_known))))
+        r = ctx.tlc('ChartConfigGen', cfg_text=cfg, dump=True, label='ChartConfigGen-%d' % mr, timeout=2400)
+        if not r.ok:
+            raise Infra('ChartConfigGen: a sanity theorem fails: %s %s\n%s' % (r.error, r.error_name, r.out[-3000:]))
+        for st in tlaval.read_dump(r.dump):
+            recs = [(x['prog'], x['ctr'], x['depth'], x['min']) for x in st['recs']]
+            if mr == 3 and len(gen_cfgs) > 1 and len(recs) < 3:
+                continue
+            # nctr / nstk are indexed by position in Ctrs
+            for k in ('nctr', 'nstk'):
+                st[k] = [list(v) + [0] * (2 - len(v)) for v in st[k]]
+            cr = random.Random(ctx.seed * 31 + len(cases))
+            cases.append(gen_case(len(cases), recs, cr, go_known, mod_known, ctr_names))
+            exps.append((recs, st))
     ctx.log('generation vectors:', len(cases))
 
     # D. generation + padding, code -> model (random record lists, exhaustive small padding parameters)
